@@ -110,6 +110,17 @@ def run_shard(rec, tier, seed, shard, nshards):
             files = []
             loaded = []
             ok_all = True
+            if rng.random() < 0.6 and not (kind == "interaction" and lookup == {}):
+                # scoring / evaluation normally runs on the samples before they are written
+                for h in chains:
+                    for th_ in h.thetas[:: max(1, len(h.thetas) // 3)]:
+                        try:
+                            th_.predict_conditional_variance(screen)
+                            th_.predict_conditional_mean(screen)
+                            th_.predict_viability(screen)
+                        except Exception:
+                            pass
+                rec.count("holders_used_before_save")
             for c, h in enumerate(chains):
                 fn = os.path.join(tmp, "th_%d_%d.h5" % (ci, c))
                 rec.case(("roundtrip", kind, sizes[c], kit.digest([kit.digest(sorted((k, kit.array_hash(v) if isinstance(v, np.ndarray) else repr(v)) for k, v in t.private_parameters_dict().items() if not isinstance(v, dict))) for t in h.thetas])), nontrivial=sizes[c] >= 2)
